@@ -384,7 +384,7 @@ def run(ctx):
     st = State()
     pt = install(ctx, st)
     g = cfg()
-    for i in range(ctx.n(8000, 800000)):
+    for i in range(ctx.n(24000, 800000)):
         p = gp.gen_pep(ctx.rng, g)
         if ctx.rng.random() < 0.3:
             # pre-existing modifications drawn from the pool the rules offer: an offered group may equal what a residue
